@@ -255,6 +255,20 @@ def register(db):
         params=dict(VAL), ensures=[], raises=dict(DOCUMENTED), returns="u:Any", properties=P,
         call_variants={"xsdata.formats.converter:ConverterFactory.serialize": [("any-json-value", {})]},
     ))
+    PV, SER = "ParserUtils.parse_var", "ConverterFactory.serialize"
+    db.add(Contract(
+        f"{DD}.bind_text", variant="typed-field-goes-through-its-converter",
+        params=dict(VAL), requires=["not var.is_elements", "not var.any_type", "not var.is_wildcard"],
+        ensures=[("converted-by-the-field-converter-under-the-decoder-options",
+                  f"called('{PV}') == 1 and call_arg('{PV}', 1) is meta and call_arg('{PV}', 2) is var and call_arg('{PV}', 3) is self.config"),
+                 ("what-is-converted-is-the-lexical-form-of-the-value",
+                  f"called('{SER}') == 1 and call_arg('{SER}', 1) == value and call_arg('{PV}', 4) == call_result('{SER}')"),
+                 ("result-is-the-conversion-result", f"called('{PV}') == 1 and result is call_result('{PV}')")],
+        raises=dict(DOCUMENTED), returns="u:Any", properties=["C10", "C04"],
+        call_variants={"xsdata.formats.converter:ConverterFactory.serialize": [("any-json-value", {})]},
+        note="every value of a typed field - whatever JSON type it has - is judged by the field's converter, so a value the "
+             "converter rejects is a ConverterWarning or (fail_on_converter_warnings) a ParserError, never silently kept",
+    ))
     db.add(Contract(
         f"{DD}.bind_complex_type", variant="documented-errors", call_default=True,
         params={"self": decoder, "meta": "opaque:XmlMeta", "var": "opaque:XmlVar", "data": "u:Json"},
